@@ -6,7 +6,11 @@ notify).  Tie: differential of the real classes against the extracted model --
 results of every operation, final count and the per-tag bookkeeping -- on
 exhaustive short histories, a structured mostly-valid random stream, a
 malformed stream, a handful of real-thread blocking scenarios replayed through
-SemaConc, and an end-to-end quiescence check on real TransferManager runs.
+SemaConc, scheduled real concurrency (harness/props/c12conc.py: managed threads
+on one real semaphore under the cooperative scheduler, every observed
+linearisation replayed through the extracted cstep, safety checks on the real
+object after every scheduling step), and an end-to-end quiescence check on real
+TransferManager runs.
 Search oracle: the statement of C12 evaluated on the implementation alone.
 """
 import io
@@ -18,6 +22,7 @@ import threading
 
 from harness import common
 from harness.common import hx, unhx
+from harness.props import c12conc
 
 EXTRACT = ['ExSema']
 COMPONENTS = ['sema']
@@ -791,6 +796,9 @@ def run(ctx):
         'a blocking acquire at count 0 is not executed in the mass differential (it would wait): the harness reads '
         'current_count()==0 and records "would block"; real waiting/waking is observed with real threads in '
         f'{len(THREAD_SCENARIOS)} fixed scenarios replayed through SemaConc (join time-outs 0.15 s / 5 s)',
+        'scheduled concurrency: the scheduler\'s Lock/Condition stand in for threading\'s (s3transfer.utils.threading replaced '
+        'while the semaphore is built); code between two lock operations of one thread is treated as one step (it touches '
+        'only thread-local data unless a shared read is hoisted out of the lock, which the yield before Lock.acquire exposes)',
         'tags and tokens are integers (the executor passes transfer ids and the returned sequence numbers)',
         'the extracted OCaml model and its line driver are trusted for the correspondence only',
     ]
@@ -801,7 +809,14 @@ def run(ctx):
                        '(unknown tags, never-issued and negative tokens, double releases).  Each is run on the real class and on '
                        'the extracted Coq model: results of every op, final count, per-tag next/lowest/pending, wf and '
                        'quiescence flags.  Distinct non-trivial = distinct history with at least one grant and one accepted '
-                       'release.  TaskSemaphore: all a/b/r strings up to length 8, capacities 0..3.  Threads: fixed scenarios. '
+                       'release.  TaskSemaphore: all a/b/r strings up to length 7 (thorough 10), capacities 0..3.  Threads: fixed scenarios. '
+                       'Scheduler: 2-4 managed threads run acquire/release programs on one real semaphore whose Lock/Condition are '
+                       'the cooperative scheduler\'s (every Lock.acquire, also the one inside Condition.wait, is a yield point); every '
+                       'schedule of the small program sets (quick: those marked small; thorough: all), bounded DFS + random + PCT '
+                       'schedules otherwise and for random programs; after every step 0 <= count and outstanding <= capacity on the '
+                       'real object, no waiting inside a non-blocking acquire, the critical sections in lock order replayed through '
+                       'SemaConc (results, final count, sleeping threads), quiescent deadlock = lost wake-up; distinct = distinct '
+                       '(programs, linearisation).  '
                        'End to end: real TransferManager runs (threaded and non-threaded, with faults and cancels), every '
                        'semaphore compared with its configured value after shutdown.')
     utils = impl()
@@ -816,7 +831,7 @@ def run(ctx):
             n_or += 1
             if oracle(cap, ops):
                 report_oracle(ctx, cap, ops)
-        step = 2 if ctx.thorough() else 3
+        step = 2 if ctx.thorough() else 6
         for ex in chunks(exhaustive_cases(ctx), 200000):
             mism += common.differential(ctx, 'sema', ex, line_S, run_impl_S, key=nontrivial_key,
                                         hist=hist_S('exhaustive'))[:40]
@@ -836,7 +851,7 @@ def run(ctx):
         ctx.sample({'component': 'sema', 'stream': 'valid', 'model_cmd': line_S(valid[0])[:400],
                     'impl_and_model_output': run_impl_S(valid[0])[:400]}, limit=4)
         # ---- B. TaskSemaphore
-        tcases = [(cap, seq) for cap in (0, 1, 2, 3) for n in range(0, (10 if ctx.thorough() else 8) + 1)
+        tcases = [(cap, seq) for cap in (0, 1, 2, 3) for n in range(0, (10 if ctx.thorough() else 7) + 1)
                   for seq in itertools.product('abr', repeat=n)]
         tm = common.differential(ctx, 'sema', tcases, lambda c: ' '.join(['T', hx(c[0])] + list(c[1])),
                                  run_impl_T, key=lambda c, o: ('T', c) if 'A' in o and 'R' in o else None,
@@ -867,7 +882,9 @@ def run(ctx):
             if r:
                 ctx.report(f'threads:{name}', r, {'kind': 'schedule', 'component': 'SlidingWindowSemaphore+threads',
                                                   'case': {'kind': 'threads', 'name': name}})
-        # ---- E. end to end
+        # ---- E. real concurrency under the cooperative scheduler, linearisations replayed through SemaConc
+        c12conc.explore(ctx)
+        # ---- F. end to end
         end_to_end(ctx)
 
     # every mismatch: does the property fail on the implementation?
@@ -911,6 +928,7 @@ def search_after_break(ctx):
         if r:
             ctx.report(f'threads:{name}', r, {'kind': 'schedule', 'component': 'SlidingWindowSemaphore+threads',
                                               'case': {'kind': 'threads', 'name': name}, 'broken': ctx.broken.what})
+    c12conc.explore(ctx, use_model=False)
     for sc, res, err in run_e2e_isolated(E2E_SCENARIOS[::3]):
         off = [] if err else [(n_, v, w) for (n_, v, w) in res['sems'] if v != w]
         if err or off:
@@ -949,6 +967,9 @@ def replay(ctx, data):
                 print('threads:', r)
                 return r is not None
         return True
+    if kind == 'conc':
+        have_model = common.proofs(ctx, 'C12', EXTRACT, COMPONENTS)
+        return c12conc.replay_case(ctx, case, use_model=have_model)
     if kind == 'e2e':
         sc = {k: case[k] for k in ('executor', 'transfer', 'disturb')}
         (_, res, err), = run_e2e_isolated([sc])
